@@ -29,9 +29,14 @@ class ClassInfo:
         self.assigns: Dict[str, ast.expr] = {}      # class-level NAME = expr
         self.annots: Dict[str, ast.expr] = {}       # class-level NAME: T [= expr]
         self.order: List[str] = []                  # class-level names in source order
+        self.setters: Dict[tuple, ast.FunctionDef] = {}   # (property name, 'setter' | 'deleter') -> function
         self.decorators = [ast.unparse(d) for d in node.decorator_list]
         for st in node.body:
             if isinstance(st, (ast.FunctionDef,)):
+                acc = [ast.unparse(d).split('.')[-1] for d in st.decorator_list if isinstance(d, ast.Attribute)]
+                if any(a in ('setter', 'deleter') for a in acc) and st.name in self.methods:
+                    self.setters[(st.name, 'setter' if 'setter' in acc else 'deleter')] = st       # property accessor: the getter keeps the name
+                    continue
                 self.methods[st.name] = st
             elif isinstance(st, ast.Assign) and len(st.targets) == 1 and isinstance(st.targets[0], ast.Name):
                 self.assigns[st.targets[0].id] = st.value
@@ -109,6 +114,8 @@ class ClassInfo:
     def method_kind(self, name: str) -> str:
         fn = self.methods[name]
         decs = [ast.unparse(d) for d in fn.decorator_list]
+        if any(d.split('.')[-1] == 'cached_property' for d in decs):
+            return 'cached_property'
         if 'property' in decs:
             return 'property'
         if 'staticmethod' in decs:
